@@ -1,6 +1,6 @@
 """C03 — outside every feature the background state is returned."""
 from .. import facts, run
-from ..rules import expr, guard, layout, pure
+from ..rules import expr, guard, layout, pure, kernels, dep
 from ..tu import AnalysisBroken
 
 
@@ -32,6 +32,9 @@ def main(tier):
     # the answer does not depend on what was queried before (no cache that outlives a query: a necessary condition for a
     # statement about 'all worlds and all points', which includes a second world in the same process)
     pure.run(P, rep, pure.query_roots(P))
+    # what lies outside a feature is decided by its extent, and the extent by the depth values listed in the file
+    rep.attempt(kernels.merge_structure, P, rep)
+    rep.attempt(dep.surface_pairing, P, rep)
     rep.explanation = ("Algebraic form of every initial block of the result, provenance of the global constants (each from the "
                        "entry of its own name, written nowhere else), all feature writes control-dependent on the feature's extent "
                        "test, forced surface temperature emitted under exactly its condition, independent of batching, and "
